@@ -259,8 +259,18 @@ func (s *Server) serveStream(ctx context.Context, r io.Reader, w io.Writer, req 
 		// pointer batch is a zero-row batch with no usable input data,
 		// so passing it to the user handler would silently corrupt the
 		// computation. End the stream with an error response instead.
-		if req.Shm != nil && IsShmPointerBatch(inputBatch) {
-			resolved, releaseOff, release, rerr := ResolveShmBatch(inputBatch, req.Shm)
+		if IsShmPointerBatch(inputBatch) {
+			inSeg := req.Shm
+			if inSeg == nil {
+				inSeg = req.connShm
+			}
+			var resolved arrow.RecordBatch
+			var releaseOff uint64
+			var release bool
+			rerr := fmt.Errorf("received shm pointer batch but no segment is attached (transport negotiation mismatch)")
+			if inSeg != nil {
+				resolved, releaseOff, release, rerr = ResolveShmBatch(inputBatch, inSeg)
+			}
 			if rerr != nil {
 				slog.Error("failed to resolve shm input batch", "method", req.Method, "err", rerr)
 				streamErr = &RpcError{
@@ -274,7 +284,7 @@ func (s *Server) serveStream(ctx context.Context, r io.Reader, w io.Writer, req 
 			inputBatch = resolved
 			ownedInput = resolved
 			if release {
-				_ = req.Shm.FreeOffset(releaseOff)
+				_ = inSeg.FreeOffset(releaseOff)
 			}
 		}
 
